@@ -332,6 +332,96 @@ def run(ctx):
             else:
                 ctx.ok("R7", f"{h.name}: every shell of the loop reaches the coefficient correction (line {mods[0].lineno})", f"{h.module.relpath}:{lp.lineno}")
     ctx.floor("R7", nfix, 4, "per-shell correction loops")
+    check_norm_expression(ctx, pred)
+
+
+def check_norm_expression(ctx, pred):
+    """R8: the quantity whose deviation from 1 is compared with the threshold is the quadratic form c^T S c."""
+    import numpy as np
+
+    from ..symarr import NotSymbolic, Sym, SymEval, sym_array
+
+    prog = ctx.prog
+    ctx.rule("R8", "the norm test compares |c^T S c - 1| with the threshold, orbital by orbital", "a norm computed on another scale (its square root, a sum over orbitals, the wrong axis) accepts or rejects files at a threshold other than the requested one")
+    # deviation site: abs(X - 1) (or abs(1 - X))
+    devs = []
+    for n in pred.own_nodes():
+        if isinstance(n, ast.Call) and getattr(n.func, "id", "") == "abs" and len(n.args) == 1 and isinstance(n.args[0], ast.BinOp) and isinstance(n.args[0].op, ast.Sub):
+            a, b = n.args[0].left, n.args[0].right
+            x = a if (isinstance(b, ast.Constant) and b.value == 1) else (b if (isinstance(a, ast.Constant) and a.value == 1) else None)
+            if x is not None:
+                devs.append((n, x))
+    if len(devs) != 1:
+        ctx.violate("R8", f"expected exactly one `abs(<norm> - 1)` deviation in {pred.name}, found {len(devs)}", pred, pred.node, construct="norm deviation site")
+        return
+    dev, x = devs[0]
+    pm = prog.parents(pred)
+    loops = []
+    cur = dev
+    while id(cur) in pm:
+        cur = pm[id(cur)]
+        if isinstance(cur, ast.For):
+            loops.append(cur)
+    if not loops:
+        ctx.violate("R8", "the norm deviation is not computed inside a loop over orbitals", pred, dev)
+        return
+    inner = loops[0]
+    olp_name = None
+    for n in pred.own_nodes():
+        if isinstance(n, ast.Assign) and isinstance(n.value, ast.Call) and len(n.targets) == 1 and isinstance(n.targets[0], ast.Name):
+            cs = next((c for c in pred.calls if c.node is n.value), None)
+            if cs is not None and any(g.qualname == "iodata.overlap.compute_overlap" for g in cs.callees):
+                olp_name = n.targets[0].id
+    if olp_name is None:
+        ctx.violate("R8", "the norm test does not compute the overlap matrix with compute_overlap", pred, pred.node, construct="overlap source")
+        return
+    orb_name = inner.iter.args[0].value.value.id if False else None
+    # the orbital matrix is the object whose .shape[1] bounds the loop and whose column is taken
+    for n in ast.walk(inner.iter):
+        if isinstance(n, ast.Attribute) and n.attr == "shape" and isinstance(n.value, ast.Name):
+            orb_name = n.value.id
+    ivar = inner.target.id if isinstance(inner.target, ast.Name) else None
+    if orb_name is None or ivar is None:
+        ctx.violate("R8", "the orbital loop is not `for i in range(<orbitals>.shape[1])`", pred, inner)
+        return
+    S = sym_array("S", (2, 2))
+    C = sym_array("c", (2, 3))
+    bad = None
+    try:
+        for j in range(3):
+            env = {olp_name: S, orb_name: C, ivar: j}
+            ev = SymEval(env, None, {"np", "numpy"})
+            for st in inner.body:
+                if isinstance(st, ast.Assign) and len(st.targets) == 1 and isinstance(st.targets[0], ast.Name) and st is not pm.get(id(dev)):
+                    if any(dev is y for y in ast.walk(st)):
+                        continue
+                    ev.env[st.targets[0].id] = ev.eval(st.value)
+            got = Sym.const(ev.eval(x)) if not isinstance(ev.eval(x), np.ndarray) else None
+            want = Sym.const(0)
+            for a in range(2):
+                for b in range(2):
+                    want = want + C[a, j] * S[a, b] * C[b, j]
+            if got is None or not (got == want):
+                bad = (j, got, want)
+                break
+    except NotSymbolic as exc:
+        raise AnalysisError(f"{pred.qualname}: the norm expression is outside the symbolic-evaluation whitelist: {exc}") from exc
+    if bad:
+        j, got, want = bad
+        ctx.violate("R8", f"for orbital {j} the tested quantity is `{got!r}`, not the quadratic form c^T S c = `{want!r}`", pred, x)
+    else:
+        ctx.ok("R8", f"`{src_of(x)}` evaluates (on symbols) to sum_ab c[a,j] S[a,b] c[b,j] for every orbital j; deviation `{src_of(dev)}`", f"{pred.module.relpath}:{dev.lineno}")
+    # the accumulated maximum is what is compared with the threshold
+    rets = [n for n in pred.own_nodes() if isinstance(n, ast.Return) and n.value is not None]
+    thr = next((p_ for p_ in pred.params if "threshold" in p_), None)
+    okret = len(rets) == 1 and isinstance(rets[0].value, ast.Compare) and len(rets[0].value.ops) == 1 and isinstance(rets[0].value.ops[0], (ast.LtE, ast.Lt)) and isinstance(rets[0].value.comparators[0], ast.Name) and rets[0].value.comparators[0].id == thr and isinstance(rets[0].value.left, ast.Name)
+    acc = rets[0].value.left.id if okret else None
+    upd = pm.get(id(dev))
+    okmax = okret and isinstance(upd, ast.Call) and getattr(upd.func, "id", "") == "max" and any(isinstance(a, ast.Name) and a.id == acc for a in upd.args)
+    if okret and okmax:
+        ctx.ok("R8", f"the maximum deviation over all orbitals is accumulated with max() and returned as `{src_of(rets[0].value)}`", f"{pred.module.relpath}:{rets[0].lineno}")
+    else:
+        ctx.violate("R8", "the norm test does not return `max deviation <= norm_threshold`", pred, rets[0] if rets else pred.node, construct="norm verdict")
 
 
 def _innermost_loop(prog, func, node):
